@@ -205,6 +205,7 @@ def expectation(req, eapi, W, ED, before):
         return res.status, res.entries, False
     # a regular file cannot replace a directory (install(1) refuses, so does the python path): the request fails
     blocked = any(v["type"] == "file" and (before.get(rel) or {}).get("type") == "dir" for rel, v in res.entries.items())
+    through_link = False
     for rel, v in res.entries.items():
         if v["type"] == "keepfile":
             continue
@@ -212,7 +213,9 @@ def expectation(req, eapi, W, ED, before):
         parts = rel.split("/")
         for i in range(1, len(parts) + (1 if v["type"] == "dir" else 0)):
             e = before.get("/".join(parts[:i]))
-            if e is not None and e["type"] != "dir":
+            if e is not None and e["type"] == "sym":
+                through_link = True  # may or may not resolve to a directory: outcome open
+            elif e is not None and e["type"] != "dir":
                 blocked = True
     needs_file = any(v["type"] == "file" for v in res.entries.values())
     needs_dir = any(v["type"] == "dir" for v in res.entries.values())
@@ -235,6 +238,8 @@ def expectation(req, eapi, W, ED, before):
             status = "reject"
     if blocked:
         status = "reject"
+    elif through_link and status == "ok":
+        return "open", res.entries, external
     elif status == "ok":
         for rel, v in res.entries.items():
             e = before.get(rel)
@@ -350,6 +355,8 @@ def judge(ctx, case, idx, w, status, entries, external, fault, ok, code, msg, fa
                               f"request #{idx}: {fault.spec} failed, reply says success, missing {missing[:3]}")
         elif not msg:
             ctx.violation(f"failure-without-message:{h}", case, f"request #{idx}: code={code}")
+        return
+    if status == "open":
         return
     if status == "either":
         # PMS leaves open whether this fails; a reported success still has to be true
@@ -744,7 +751,7 @@ def run_bash_layer(ctx, case):
             h = req["helper"]
             ext = ":external-install" if external else ""
             sent_i = pp_.sent[i] if i < len(pp_.sent) else None
-            if st_ == "either":
+            if st_ in ("either", "open"):
                 continue
             is_last_fatal = stopped_by is not None and i == served - 1
             if is_last_fatal:
@@ -892,8 +899,8 @@ def request(draw, allow_fault=True):
         # recursive installs of trees holding symlinks / a fifo into a few shared destinations: collisions with what
         # earlier requests left there, failures inside the recursive walk, and retries on the same helper
         h = "doins"
-        env["insinto"] = draw(st.sampled_from(["/usr/share/rt", "/opt/rt x"]))
-        args = ["-r", draw(st.sampled_from(["t/.", "u/.", "tf", "t", "u", "tf/.", "d/."]))]
+        env["insinto"] = draw(st.sampled_from(["/usr/share/rt", "/usr/share/rt", "/opt/rt x"]))
+        args = ["-r", draw(st.sampled_from(["t/.", "u/.", "tf/.", "u/.", "t/.", "t", "u", "tf", "d/."]))]
     elif kind == "noargs":
         h = draw(st.sampled_from(["doins", "dodoc", "dodir", "doman"]))
     elif kind == "badopt":
@@ -930,6 +937,12 @@ def request(draw, allow_fault=True):
     r = {"helper": h, "env": env, "args": args, "nonfatal": nonfatal, "kind": kind, "fault": None}
     if kind == "blocked":
         return [blocker, r]
+    if kind == "rtree" and draw(st.integers(0, 9)) < 6:
+        # follow-up on the same helper and destination: retry after a failure inside the walk / collision with what
+        # the first call installed (same or different link targets, directory vs link)
+        first = dict(r, nonfatal=True)
+        second = dict(r, args=["-r", draw(st.sampled_from(["u/.", "t/.", "d/.", "t", "tf/."]))], fault=None)
+        return [first, second]
     if allow_fault and kind in ("ok_files", "dodir", "keepdir", "dosym", "recursive", "rtree") and draw(st.integers(0, 9)) < 4:
         mod, fn = draw(st.sampled_from(FAULTS))
         r["fault"] = {"mod": mod, "fn": fn, "nth": draw(st.integers(1, 3))}
@@ -1012,7 +1025,7 @@ def plan(tier, seed):
     if tier == "quick":
         # every external-install / patch request costs a fork+exec: keep the quick tier small
         for i in range(6):
-            tasks.append({"task": "streams", "layer": "inproc", "examples": 35, "salt": i})
+            tasks.append({"task": "streams", "layer": "inproc", "examples": 40, "salt": i})
         for i in range(4):
             tasks.append({"task": "streams", "layer": "phase", "examples": 20, "salt": 10 + i})
         for i in range(6):
